@@ -141,6 +141,7 @@ func (s *replaySubjectImpl[T]) ErrorWithContext(ctx context.Context, err error) 
 	}
 
 	s.mu.Unlock()
+	verifPoint("subject.terminal.unlocked")
 	s.unsubscribeAll()
 }
 
@@ -161,6 +162,7 @@ func (s *replaySubjectImpl[T]) CompleteWithContext(ctx context.Context) {
 	}
 
 	s.mu.Unlock()
+	verifPoint("subject.terminal.unlocked")
 	s.unsubscribeAll()
 }
 
